@@ -289,6 +289,27 @@ def install(ai):
                 if not base.segs:
                     return False
                 return False if args[0] not in _SYM_CHARS else interp.decide(node, f'{name} on symbolic text')
+            if name in ('removeprefix', 'removesuffix') and len(args) == 1 and isinstance(args[0], str) and not kwargs \
+                    and not (set(args[0]) & _SYM_CHARS):
+                # the affix is made of characters symbolic text never holds: whether it is there shows in the literal end segment
+                segs = list(base.segs)
+                if not args[0] or not segs:
+                    return base
+                if name == 'removeprefix':
+                    if isinstance(segs[0], str) and len(segs[0]) >= len(args[0]):
+                        if segs[0].startswith(args[0]):
+                            segs[0] = segs[0][len(args[0]):]
+                        return norm(SStr(segs))
+                    if not isinstance(segs[0], str):
+                        return base
+                else:
+                    if isinstance(segs[-1], str) and len(segs[-1]) >= len(args[0]):
+                        if segs[-1].endswith(args[0]):
+                            segs[-1] = segs[-1][:len(segs[-1]) - len(args[0])]
+                        return norm(SStr(segs))
+                    if not isinstance(segs[-1], str):
+                        return base
+                return Opaque(f'str.{name} across a symbolic segment')
             if name == 'strip' and not args:
                 segs = list(base.segs)
                 if segs and isinstance(segs[0], str):
